@@ -143,3 +143,22 @@ pub fn canary_caller(v: &[u8], i: usize) -> u8 {
 pub fn closure_cmp(limit: Option<(i32, i32)>, n: i32) -> bool {
     limit.is_some_and(|(lo, hi)| n < lo || hi < n)
 }
+
+// ---- buffering adapters whose Drop swallows errors (ADAPTER-DROP) ----
+
+pub fn bufwriter_dropped<W: Write>(mut w: W) -> io::Result<()> {
+    {
+        let mut b = io::BufWriter::new(&mut w);
+        b.write_all(b"x")?;
+    }
+    w.flush()
+}
+
+pub fn bufwriter_flushed<W: Write>(mut w: W) -> io::Result<()> {
+    {
+        let mut b = io::BufWriter::new(&mut w);
+        b.write_all(b"x")?;
+        b.flush()?;
+    }
+    w.flush()
+}
